@@ -36,13 +36,15 @@ invariant `CAt`): `C10_end_to_end`, `C10_end_to_end_items`, `C10_end_to_end_cut`
 hypothesis about the contents of the channel, only about the history: the search was not scrubbed /
 abandoned / displaced / dropped while the driver ran and its result was outstanding
 (`ConnStream.ServedAll`; not needed once the result is in the channel).  `C10_lost_search_incomplete`:
-without it the statement is false.
+without it the statement is false.  `C10_end_to_end_causal`: the same from the causal hypothesis "no step of
+the history is one of the four kinds that can take a search's registration or receiver away" (`lossEv`).
 -/
 import Ldap3V.Lemmas.StreamC10
 import Ldap3V.Lemmas.StreamPagedFinish
 import Ldap3V.Lemmas.GenPure
 import Ldap3V.Lemmas.ConnStreamTrace
 import Ldap3V.Lemmas.ConnStreamCut
+import Ldap3V.Lemmas.ConnStreamServed
 namespace Ldap3V.Stream
 open Spec
 
@@ -753,6 +755,44 @@ theorem C10_lost_search_incomplete :
     ConnStream.sentFrom s 0 1 = [⟨1, 4, 70, false⟩, ⟨1, 4, 71, false⟩] ∧
     ¬ ConnStream.ChanComplete s { opIdx := 0, items := [.entry ⟨1, 4, 70, false⟩], taken := 1, timedOut := true } bridgeOp 0 ∧
     ¬ ConnStream.ServedAll 100 pre true post 0 1 := by
+  refine ⟨by decide, by decide, by decide, by decide, by decide⟩
+
+/-- `C10_end_to_end` from a CAUSAL hypothesis.  `ServedAll` (a statement about the states of the history)
+follows from a statement about its steps: right after the driver's step the search is registered with a
+live receiver (or the write failed and the driver ended) — `Served s1` —, and none of the later steps is a
+loss step (`ConnStream.lossEv`, an exhaustive list, `ConnStream.served_step`): the caller's `finish()` of this
+stream; a poll of the search's `op_call` that finds its reply sender dropped or its deadline passed; the
+driver processing a scrub request naming the search's ID; the driver handling an Abandon naming the ID,
+or registering another search under the same ID. -/
+theorem C10_end_to_end_causal (D : ConnStream.Content) (N : Nat) (pre post : List Conn.Ev) (b : Bool) (i c : Nat) (o : Conn.Op)
+    (entriesOnly : Bool) (h : Handle) (q : Query) (calls : List Call) :
+    let s0 := Conn.run (Conn.init N) pre
+    let s1 := Conn.run (Conn.init N) (pre ++ [Conn.Ev.drvOp b])
+    let s := Conn.run (Conn.init N) (pre ++ Conn.Ev.drvOp b :: post)
+    s0.drv = .running → s0.opQ.head? = some i → s0.ops[i]? = some o → o.chan = some c →
+    ∀ ch, s.chans[c]? = some ch → s.drv ≠ .running →
+      ConnStream.Served s1 c o.id → ConnStream.noLoss c i o.id s1 post = true →
+      run (init (streamChain entriesOnly) h [.script (ConnStream.fullScript D s c)]) (.start q :: calls) =
+        Cursor.run (if q.filterOk then .ok else .err .filterParsing)
+          (Cursor.ofView
+            (if entriesOnly then eoView (ConnStream.sentView D false (ConnStream.sentFrom s s0.pos o.id))
+             else ConnStream.sentView D false (ConnStream.sentFrom s s0.pos o.id)))
+          (.start q :: calls) := by
+  intro s0 s1 s hd hq ho hc ch hch hdead hS1 hN
+  exact C10_end_to_end D N pre post b i c o entriesOnly h q calls hd hq ho hc ch hch
+    (Or.inr ⟨hdead, ConnStream.servedAll_of_noLoss N pre post b hd hq ho hc hS1 hN⟩)
+
+/-- non-vacuity: in the history of the two interleaved searches no loss step occurs, for either search; in the
+history of `C10_lost_search_incomplete` the driver's scrub step is one -/
+example :
+    ConnStream.Served (Conn.run (Conn.init 100) (e2eHead ++ [Conn.Ev.drvOp true])) 0 1 ∧
+    ConnStream.noLoss 0 0 1 (Conn.run (Conn.init 100) (e2eHead ++ [Conn.Ev.drvOp true]))
+      (e2eMid ++ Conn.Ev.drvOp true :: e2eTail) = true ∧
+    ConnStream.Served (Conn.run (Conn.init 100) ((e2eHead ++ Conn.Ev.drvOp true :: e2eMid) ++ [Conn.Ev.drvOp true])) 1 2 ∧
+    ConnStream.noLoss 1 1 2 (Conn.run (Conn.init 100) ((e2eHead ++ Conn.Ev.drvOp true :: e2eMid) ++ [Conn.Ev.drvOp true])) e2eTail = true ∧
+    ConnStream.noLoss 0 0 1 (Conn.run (Conn.init 100) [.alloc .search, .enqueue 0 none, .drvOp true])
+      [.poll 0, .srvSend ⟨1, 4, 70, false⟩, .drvResp, .recv 0 none, .tick 5, .recv 0 (some 3),
+       .drvScrub, .srvSend ⟨1, 4, 71, false⟩, .drvResp, .srvClose, .drvResp] = false := by
   refine ⟨by decide, by decide, by decide, by decide, by decide⟩
 
 end Ldap3V.Stream
